@@ -166,6 +166,30 @@ def check(run):
         for l, e, o in zip(clines, cexp, io4):
             if e is not None and o != "<crash>" and o.split(" ")[0] != e:
                 oracle_fail.append((cfg, l, e, o))
+        # raw values read through the typed accessors (as<MsgPackBinary>() / as<MsgPackExtension>() / is<>()): every bin / ext
+        # encoding, their truncations (a header cut short must not be read past), and arbitrary raw bytes
+        rlines = []
+        for n_ in (0, 1, 2, 3, 4, 5, 8, 9, 16, 17, 255, 256, 300):
+            pl = bytes(rnd.randrange(256) for _ in range(n_))
+            for v in (("bin", pl), ("ext", rnd.randrange(256), pl)):
+                enc = gen_doc.mp_encode(v, rnd)
+                rlines.append("RX " + hx(enc))
+                for k in sorted(set([1, 2, 3, 4, 5, 6, len(enc) - 1])):
+                    if 0 < k < len(enc):
+                        rlines.append("RX " + hx(enc[:k]))
+                rlines.append("RX " + hx(enc + b"\x00"))
+        for code in list(range(0xc4, 0xca)) + list(range(0xd4, 0xd9)):
+            rlines.append("RX %02x" % code)
+            for _ in range(6):
+                rlines.append("RX %02x%s" % (code, hx(bytes(rnd.randrange(256) for _ in range(rnd.randrange(1, 8))))))
+        for _ in range(300 if thorough else 60):
+            rlines.append("RX " + hx(bytes(rnd.randrange(256) for _ in range(rnd.randrange(1, 12)))))
+        rlines = [l for l in rlines if l != "RX -"]
+        mism, moR, ioR = vlib.correspond(run, model, impl, rlines, cfg, "typed accessors on raw values")
+        all_mism += mism
+        for l, o in zip(rlines, ioR):
+            if o != "<crash>" and "DIFFERS" in o:
+                oracle_fail.append((cfg, l, "is<T>() agrees with as<T>()", o[:200]))
         run.sample(dict(case=lines[0][:160], cfg=cfg, meaning="M <nesting> <filter> <hex MessagePack> -> code, bytes consumed, document"))
     run.cov["rule"] = ("values encoded by an independent encoder with random legal widths (non-minimal ints/lengths, float32/64, bin, ext, "
                        "duplicate and NUL-containing keys), expected document computed from the value; all proper prefixes; single-byte "
